@@ -16,7 +16,7 @@ from checks import common, corpus
 LEVEL = "model_checking"
 
 HOLD_POPS = ["same", "same3", "encdec"]
-BROKEN_POPS = {"diffsb": "sb_size", "diffflags": "cpu_flags", "dec2": "two_decoders"}
+BROKEN_POPS = {"stagger": "init_during_encode", "diffsb": "sb_size", "diffflags": "cpu_flags", "dec2": "two_decoders"}
 
 
 def model_part(res):
@@ -49,9 +49,9 @@ def spec_str(s, delay=0):
     return ("dec:" if s.get("dec") else "enc:") + ",".join(parts)
 
 
-def run_multi(exe, specs_delays, tag, timeout):
+def run_multi(exe, specs_delays, tag, timeout, barrier=False):
     out = os.path.join(vlib.tmpdir(), "c17_%s_%d.nd" % (tag, os.getpid()))
-    cmd = [exe, "--out", out, "--timeout", str(timeout)]
+    cmd = [exe, "--out", out, "--timeout", str(timeout)] + (["--barrier"] if barrier else [])
     for s, d in specs_delays:
         cmd += ["--inst", spec_str(s, d)]
     rc, log = vlib.sh(cmd, timeout=timeout + 30)
@@ -110,14 +110,20 @@ def run(res):
     D8 = dict(st["s8"], threads=1)
     D8t = dict(st["s8"], threads=3)
     D10 = dict(st["s10"], threads=1)
+    # expect = None: the model guarantees NoInterference for this population (encoders behind the init barrier);
+    # otherwise the population the model shows to interfere (judged, and keyed, as that finding)
+    stag = {"differs": "init_during_encode"}
     groups = [
         ("pair_8_10bit", [(A, 0), (C, 30)], None),
-        ("pair_staggered", [(A2, 0), (A, 150)], None),
+        ("pair_long_short", [(A2, 0), (A, 150)], None),
         ("pair_preset", [(A, 0), (D, 0)], None),
         ("enc_dec", [(A, 0), (D8, 10)], None),
         ("enc_dec_mt", [(C, 0), (D8t, 0)], None),
         ("triple", [(A, 0), (C, 60), (D10, 20)], None),
         ("pair_asm", [(A, 0), (Fc, 40)], None),
+        ("stagger_pair", [(A2, 0), (A, 150)], stag),
+        ("stagger_preset", [(A, 0), (D, 0)], stag),
+        ("stagger_triple", [(A2, 0), (C, 100), (D, 200)], stag),
         ("sb64_sb128", [(B128, 0), (A2, 300)], {"differs": "sb_size"}),
         ("dec_dec", [(D8, 0), (D10, 0)], {"differs": "two_decoders"}),
     ]
@@ -129,6 +135,7 @@ def run(res):
             if sum(1 for s in g if s.get("dec")) > 1:
                 continue
             groups.append(("rand%d" % i, [(s, rng.choice([0, 20, 100, 400])) for s in g], None))
+            groups.append(("srand%d" % i, [(s, rng.choice([0, 20, 100, 400])) for s in g], stag))
     # solo references (in parallel)
     solo = {}
     bundle = corpus.Bundle()
@@ -147,7 +154,7 @@ def run(res):
         solo[key] = obs_of(evs, 0, "solo")
         bundle.add("Observe", [{"ev": "Run", "key": key}] + solo[key] + [{"ev": "RunEnd"}], "solo " + key)
     # groups
-    gouts = common.parallel(lambda gg: run_multi(exe, gg[1], gg[0], 600), groups, workers=4)
+    gouts = common.parallel(lambda gg: run_multi(exe, gg[1], gg[0], 600, barrier=gg[2] is None), groups, workers=4)
     for (name, g, expect), (rc, evs, cmd) in zip(groups, gouts):
         desc = "group %s: %s" % (name, " || ".join(spec_str(s, d) for s, d in g))
         res.case(desc)
